@@ -109,6 +109,79 @@ theorem C16_no_fabrication (bs : Bytes) (m : TlvMap) (h : parseOptions bs = some
     ∀ x ∈ m, Present bs x.1 x.2 :=
   parseOptionsLoop_present bs (bs.length + 1) [] bs [] m (by simp) (by simp) h
 
+/-- a successful `ReadBytes` hands back exactly the next `n` octets -/
+theorem readBytes_ok (r : Reader) (n : Nat) (h0 : r.err = none) (h1 : (r.readBytes n).2.err = none) :
+    (r.readBytes n).1 = r.rest.take n ∧ (r.readBytes n).2.rest = r.rest.drop n ∧ n ≤ r.rest.length := by
+  unfold Reader.readBytes at h1 ⊢
+  simp only [h0] at h1 ⊢
+  split
+  · rename_i hn; subst hn; simp
+  · rename_i hn
+    rw [if_neg hn] at h1
+    split
+    · rename_i he; rw [if_pos he] at h1; simp at h1
+    · rename_i he
+      rw [if_neg he] at h1
+      split
+      · rename_i hl; rw [if_pos hl] at h1; simp at h1
+      · rename_i hl; exact ⟨rfl, rfl, by omega⟩
+
+theorem readTlvLoop_present (bs : Bytes) : ∀ (fuel : Nat) (r : Reader) (m : TlvMap) (pre : Bytes),
+    r.err = none → bs = pre ++ r.rest → (∀ x ∈ m, Present bs x.1 x.2) →
+    ∀ x ∈ (readTlvLoop fuel r m).map.getD [], Present bs x.1 x.2
+  | 0, r, m, pre, _, _, hm => by simpa [readTlvLoop] using hm
+  | fuel+1, r, m, pre, he, hsplit, hm => by
+    simp only [readTlvLoop]
+    split
+    · simpa using hm
+    · have h1 := readBytes_ok r 4 he
+      generalize r.readBytes 4 = p1 at h1
+      obtain ⟨hd, r1⟩ := p1
+      simp only at h1 ⊢
+      split
+      · simpa [Reader.setErrNil] using hm
+      · simp
+      · rename_i he1
+        obtain ⟨hhd, hr1, hlen4⟩ := h1 he1
+        generalize hlen : fromBe (hd.drop 2) = len
+        have h2 := readBytes_ok { r1 with alloc := r1.alloc + len } len (by simpa using he1)
+        generalize Reader.readBytes { r1 with alloc := r1.alloc + len } len = p2 at h2
+        obtain ⟨v, r2⟩ := p2
+        simp only at h2 ⊢
+        split
+        · simpa [Reader.setErrNil] using hm
+        · simp
+        · rename_i he2
+          obtain ⟨hv, hr2, hlenv⟩ := h2 he2
+          refine readTlvLoop_present bs fuel r2 _ (pre ++ hd ++ v) he2 ?_ ?_
+          · rw [hsplit, hr2, hr1, hv, hhd, hr1]
+            simp only [List.append_assoc]
+            rw [List.take_append_drop, List.take_append_drop]
+          · intro x hx
+            rcases mem_upsert m _ v x hx with h | h
+            · exact hm x h
+            · subst h
+              refine ⟨pre, hd, r2.rest, ?_, by rw [hhd, List.length_take]; omega, rfl, ?_⟩
+              · rw [hsplit, hr2, hv, hhd, hr1]
+                simp only [List.append_assoc]
+                rw [List.take_append_drop, List.take_append_drop]
+              · have hlv : len ≤ r1.rest.length := hlenv
+                rw [hlen, hv]
+                show len = (List.take len r1.rest).length
+                rw [List.length_take]; omega
+
+/-- **no_fabrication** (reader-based parsers `ReadTLVs`, `ReadTLVs1`, `ReadOptions`): every parameter
+    reported is completely present in the unread input -/
+theorem C16_no_fabrication_reader (r : Reader) (x : Tlv) (hx : x ∈ (readTlvs r).map.getD []) :
+    Present r.rest x.1 x.2 := by
+  unfold readTlvs at hx
+  split at hx
+  · simp at hx
+  · split at hx
+    · simp at hx
+    · rename_i h
+      exact readTlvLoop_present r.rest _ r [] [] (by simpa using h) (by simp) (by simp) x hx
+
 /-- **long_value_consistent** : for a value of any length the emitted length field and the emitted
     value agree (the value is truncated to `len mod 65536` octets, never a panic or a mismatch) -/
 theorem C16_long_value_consistent (t : Nat) (v : Bytes) :
@@ -134,6 +207,7 @@ open SmsVerif.C16
 #print axioms C16_parse_serialize
 #print axioms C16_parsers_agree
 #print axioms C16_no_fabrication
+#print axioms C16_no_fabrication_reader
 #print axioms C16_long_value_consistent
 #print axioms C16_add_to_empty
 end
